@@ -55,6 +55,12 @@ func parseTarget(s string) ptarget {
 
 // splitTop splits on commas (payloads contain none).
 func tokenBytes(tok string) []byte {
+	if tok == "C~" || tok == "R~" {
+		// the union pointer of the root struct is null
+		msg, m := newMsg()
+		m.Struct.SetUint16(0, map[byte]uint16{'C': 2, 'R': 3}[tok[0]])
+		return bytesOf(msg)
+	}
 	a := strings.Split(tok[1:], ",")
 	switch tok[0] {
 	case 'B':
